@@ -290,7 +290,8 @@ struct KbPlan {
   present: bool,
   typ: u8,                // 0 the library's constant, 1 "kb+jwt", 2 "JWT", 3 absent, 4 "KB+JWT"
   method: u8,             // 0 #k1, 1 #k2
-  kid: u8,                // 0 full id, 1 missing method, 2 absent, 3 fragment only
+  kid: u8,                // 0 full id, 1 missing method, 2 absent, 3 fragment only, 4 a method id under the signer's own (foreign) DID
+  attach_jwk: bool,       // the signer's public key travels in the `jwk` header parameter (legal extra for the holder's own key, bait for a foreign one)
   method_id_override: u8, // 0 none, 1 signing method, 2 other method
   scope: u8,              // 0 None, 1 VerificationMethod, 2 Authentication, 3 AssertionMethod
   sig: u8,                // 0 valid, 1 stranger, 2 other method's key, 3 claims altered after signing
@@ -310,6 +311,7 @@ impl KbPlan {
       typ: 0,
       method: rng.below(2) as u8,
       kid: 0,
+      attach_jwk: rng.chance(1, 5),
       method_id_override: if rng.chance(1, 4) { 1 } else { 0 },
       scope: 0,
       sig: 0,
@@ -463,9 +465,11 @@ fn build_kb(rng: &mut Rng, p: &KbPlan, issuer_jwt: &str) -> (SdJwt, KeyBindingJW
     3 => {
       h.insert("kid".into(), json!(format!("#{}", frag)));
     }
+    4 => {
+      h.insert("kid".into(), json!("did:example:stranger#k1"));
+    }
     _ => {}
   }
-  let header = Value::Object(h);
   let own = if p.method == 0 { hk() } else { hk2() };
   let other = if p.method == 0 { hk2() } else { hk() };
   let signer = match p.sig {
@@ -473,6 +477,10 @@ fn build_kb(rng: &mut Rng, p: &KbPlan, issuer_jwt: &str) -> (SdJwt, KeyBindingJW
     2 => other,
     _ => own,
   };
+  if p.attach_jwk {
+    h.insert("jwk".into(), serde_json::from_str::<Value>(&signer.public_jwk_json(Some("EdDSA"))).unwrap());
+  }
+  let header = Value::Object(h);
   let kb = if p.sig == 3 {
     let good = jwt(&header, &claims, &signer);
     let sig_seg = good.rsplit('.').next().unwrap().to_string();
@@ -721,7 +729,7 @@ fn mutate_kb(rng: &mut Rng, p: &mut KbPlan, w: u64) {
   match w {
     0 => p.present = false,
     1 => p.typ = 2 + rng.below(3) as u8,
-    2 => p.kid = 1 + rng.below(3) as u8,
+    2 => p.kid = 1 + rng.below(4) as u8,
     3 => p.method_id_override = 2,
     4 => p.scope = 1 + rng.below(3) as u8,
     5 => p.sig = 1 + rng.below(3) as u8,
@@ -752,6 +760,13 @@ fn mutate_kb(rng: &mut Rng, p: &mut KbPlan, w: u64) {
     10 => {
       p.window = 2;
       p.iat_pos = 1 + rng.below(2) as u8;
+    }
+    13 => {
+      // signed by a foreign key that is offered in the header itself, with a kid the holder document cannot resolve
+      p.sig = 1;
+      p.attach_jwk = true;
+      p.kid = *rng.pick(&[1u8, 2, 4]);
+      p.method_id_override = 0;
     }
     11 => p.typ = 1, // the spec spelling (legal)
     _ => {
@@ -800,11 +815,11 @@ fn main() {
     match i % 6 {
       0 => {}
       1 | 2 | 3 => {
-        let w = rng.below(13);
+        let w = rng.below(14);
         mutate_kb(&mut rng, &mut k, w);
       }
       _ => {
-        let (a, b) = (rng.below(13), rng.below(13));
+        let (a, b) = (rng.below(14), rng.below(14));
         mutate_kb(&mut rng, &mut k, a);
         mutate_kb(&mut rng, &mut k, b);
       }
